@@ -192,6 +192,9 @@ def strat_apply(ctx):
         "state_arg": st.sampled_from(["none", "unitarray", "list"]),
         "chem_arg": st.booleans(),
         "update": st.booleans(),
+        # afterwards: one flag of the cell is toggled in place (set_chemostat) and a reaction is applied again
+        "toggle": st.one_of(st.none(), st.fixed_dictionaries({"species": st.integers(0, 3), "via": st.sampled_from(["set_chemostat", "item"]),
+                                                               "on_copy": st.booleans()})),
     })
 
 
@@ -264,6 +267,38 @@ def check_apply(ctx, c):
             raise Violation("update=False changed the system state", key="apply:no-update")
     if [int(v) for v in system.chemostats] != flags:
         raise Violation("apply_reaction changed the chemostat map", key="apply:map")
+    tg = c.get("toggle")
+    if tg is None or c["chem_arg"]:
+        return
+    # the system's own map, edited in place after it has been consulted once
+    obj = sut_call("system.copy", system.copy) if tg["on_copy"] else system
+    s_t = touched[tg["species"] % len(touched)] if touched else tg["species"] % ns
+    t_t = s_t * n + cell
+    new_flag = 1 - flags[t_t]
+    if tg["via"] == "set_chemostat":
+        sut_call("set_chemostat", obj.set_chemostat, s_t, cell, new_flag)
+    else:
+        obj.chemostats[t_t] = new_flag
+    flags2 = list(flags)
+    flags2[t_t] = new_flag
+    if [int(v) for v in obj.chemostats] != flags2:
+        raise Violation("after setting the flag of (species %d, cell %d) to %d the map reads %s" % (s_t, cell, new_flag, [int(v) for v in obj.chemostats]),
+                        key="apply:toggle-map")
+    ctx.count("apply:second-call-after-flag-edit")
+    base2 = [float(v) for v in si.si_values(obj.state)]
+    out2 = sut_call("apply_reaction (second call)", obj.apply_reaction, reaction if not tg["on_copy"] or c["by"] != "object" else ri,
+                    position=pos, n=c["n"], update=False)
+    got2 = [float(v) for v in si.si_values(out2)]
+    for t in range(n * ns):
+        s, i = t // n, t % n
+        want = base2[t]
+        if i == cell and not flags2[t]:
+            want += c["n"] * delta[s]
+        tol = 1e-12 * (abs(base2[t]) + abs(c["n"] * delta[s])) + 1e-300
+        if abs(got2[t] - want) > tol:
+            raise Violation("apply_reaction(%s, position=%r, n=%r) after the flag of (species %d, cell %d) was set to %d in place: entry (species %d, "
+                            "cell %d, flag %d) = %r molecules, expected %r" % (B.equation(r["sub"], r["prod"]), pos, c["n"], s_t, cell, new_flag,
+                                                                              s, i, flags2[t], got2[t], want), key="apply:after-flag-edit")
 
 
 # ---- a flagged entry still acts as a source --------------------------------------------------------
@@ -278,6 +313,8 @@ def strat_source(ctx):
         "seed": st.integers(0, 2 ** 32 - 1),
         "cells": st.integers(2, 4),
         "src_cell": st.integers(0, 3),
+        # diffusion mode: every species of the source cell is flagged (the cell as a whole is a reservoir)
+        "whole_cell": st.booleans(),
     })
 
 
@@ -298,7 +335,11 @@ def check_source(ctx, c):
     system = S.RDSystem(net, space)
     system.set_state(src, src_cell, c["count"])
     system.set_chemostat(src, src_cell, 1)
-    ctx.note(c, si_ >= 1, ["source:" + c["mode"], "source:" + c["engine"], "source:" + c["space"]])
+    whole = bool(c.get("whole_cell")) and c["mode"] == "diffusion"
+    if whole:
+        for l in labels:
+            system.set_chemostat(l, src_cell, 1)
+    ctx.note(c, si_ >= 1, ["source:" + c["mode"], "source:" + c["engine"], "source:" + c["space"]] + (["source:whole-cell-flagged"] if whole else []))
     script = S.RDScript(system, [0], time_step=1e-3, t_max=1e6, sampling_policy="on_iteration",
                         rng_seed=c["seed"], init_state_processing="none")
     traj, _, _ = sut_call("engine run", sim.drive, script, c["engine"], 400)
